@@ -46,7 +46,10 @@ def run(p, cells, seed=0, enc=None, X=None, resets=(), bads=()):
     ev = []
     conf = {"tn": 1, "fn": 1, "fp": 1, "tp": 1}
     seen = set()
+    from .core import Neighbour
+    nb = Neighbour(make(dict(p, num_mc=20)), lambda o, u: o.update(int(u < 0.5), int((u * 7) % 1 < 0.6)), len(cells))
     for t, (yt, yp) in enumerate(cells):
+        nb.step()
         if t in resets:
             det.reset()
             conf = {"tn": 1, "fn": 1, "fp": 1, "tp": 1}
